@@ -3,6 +3,7 @@ package main
 // C19 — zmodem hands the terminal back: life-cycle flag discipline.
 
 import (
+	"fmt"
 	"go/token"
 
 	"golang.org/x/tools/go/ssa"
@@ -15,6 +16,7 @@ func init() {
 			c.run("C19-R2", "MUST-PASS: whoever stops the session arms its end", c19R2)
 			c.run("C19-R3", "MUST-PASS: errors and helper exit cancel the server side", c19R3)
 			c.run("C19-R6", "MUST-PASS: a finished session stops reading the helper, makes it exit, and the exit watcher always arms the cleanup", c19Stream)
+			c.run("C19-R7", "MUST-PASS/GUARD-DOM/WHO-WRITES: the bridge hands traffic on unchanged in both directions, from installed pipes, with the matching helper", c19Bridge)
 			c.run("C19-R4", "SIBLING: decline condition and input gate agree", c19R4)
 			c.run("C19-R5", "WHO-WRITES: the 'cleaned' flag", c19R5)
 		})
@@ -377,5 +379,240 @@ func c19R5(c *Ctx) {
 	}
 	if n < 2 {
 		c.undecided("cleaned/writers", "expected two writers of 'cleaned'")
+	}
+}
+
+// c19Bridge: the bridge itself. Traffic is handed on in both directions exactly as read; the helper's pipes and the
+// session's writers are installed before they are used; the header type selects the matching helper; the user's Ctrl-C
+// and the start-up check reach the error path; a session that never got a helper ends only on the remote side's
+// cancel / cannot-open.
+func c19Bridge(c *Ctx) {
+	zT := "(*trzsz.zmodemTransfer)."
+	// (a) remote -> helper
+	so := c.fn("zmodemTransfer.handleServerOutput")
+	fwd := 0
+	for _, ci := range callsIn(so, idIs("trzsz.writeAll")) {
+		if !isFieldOfName(ci.Common().Args[0], "stdin") {
+			continue
+		}
+		fwd++
+		nonNil := false
+		for _, fc := range factsAt(ci.Block()) {
+			op, x, y, ok := cmpFact(fc)
+			if call, _ := callOf(x); ok && op == token.NEQ && isNilConst(y) && call != nil && isAtomicOnField(call, "cmd", "Load") {
+				nonNil = true
+			}
+		}
+		c.check(nonNil && isVar("buf")(ci.Common().Args[1]), "handleServerOutput/remote->helper", c.ipos(ci), "remote output is handed to the helper, unchanged, on the edge where the helper is running", "remote output is not handed to the running helper unchanged (wrong edge of the helper test, or another value)")
+	}
+	if fwd != 1 {
+		c.bad("handleServerOutput/remote->helper", c.pos(so.Pos()), "the one place that hands remote output to the helper was not found")
+	}
+	// (h) without a helper the session ends only on cancel / cannot-open
+	noReason := []assumption{{pred: func(v ssa.Value) bool { call, _ := callOf(v); return call != nil && calleeID(&call.Call) == "bytes.Contains" }, val: false}}
+	reach := blocksUnder(so, noReason)
+	endsSilently := false
+	for _, ci := range callsIn(so, anyID) {
+		if (isAtomicOnField(ci, "stopped", "Store") || isAtomicOnField(ci, "cleaned", "Store")) && reach[ci.Block()] {
+			endsSilently = true
+		}
+	}
+	c.check(!endsSilently, "handleServerOutput/pre-start-end-has-a-reason", c.pos(so.Pos()), "before the helper runs the session is ended only by the remote side's cancel sequence or 'cannot open'", "before the helper runs, ordinary remote output can end the session (and a real cancel is then ignored)")
+	// (b),(q) helper -> remote
+	hs := c.fn("zmodemTransfer.handleZmodemStream")
+	var read *ssa.Call
+	eachInstr(hs, func(in ssa.Instruction) {
+		if call, ok := in.(*ssa.Call); ok && call.Call.IsInvoke() && call.Call.Method.Name() == "Read" {
+			read = call
+		}
+	})
+	if read == nil {
+		c.lost("Read of the helper's output")
+	}
+	n, rerr := extractOf(read, 0), extractOf(read, 1)
+	var deliver ssa.Instruction
+	for _, ci := range callsIn(hs, idIs("trzsz.writeAll")) {
+		if isFieldOfName(ci.Common().Args[0], "serverIn") {
+			sl, isS := strip(ci.Common().Args[1]).(*ssa.Slice)
+			if isS && sameValue(sl.X, read.Call.Args[0]) && sl.Low == nil && sl.High != nil && sameValue(sl.High, n) {
+				deliver = ci.(ssa.Instruction)
+			}
+		}
+	}
+	c.check(deliver != nil, "handleZmodemStream/helper->remote", c.ipos(read), "what the helper wrote is handed to the remote side as exactly buffer[:n]", "the helper's output is not handed to the remote side as exactly the bytes read")
+	if deliver != nil {
+		empty := func(from, to *ssa.BasicBlock) bool {
+			fs := edgeFactsTo(from, to)
+			return factCmp(fs, token.LEQ, isValue(n), isConstIntV(0)) || factCmp(fs, token.EQL, isValue(n), isConstIntV(0))
+		}
+		over := func(from, to *ssa.BasicBlock) bool { // the session is over / failed: output is ignored on purpose
+			for _, fc := range edgeFactsTo(from, to) {
+				if call, _ := callOf(fc.V); call != nil && (isAtomicOnField(call, "errorOccurred", "Load") || isAtomicOnField(call, "clientFinished", "Load")) && fc.Pol {
+					return true
+				}
+			}
+			return false
+		}
+		hit, path := reachFromE(read.Block(), instrIndex(read)+1, func(in ssa.Instruction) bool { return in == ssa.Instruction(read) || isReturn(in) }, func(in ssa.Instruction) bool { return in == deliver }, func(a, b *ssa.BasicBlock) bool { return empty(a, b) || over(a, b) })
+		c.check(hit == nil, "handleZmodemStream/no-read-dropped", c.ipos(read), "bytes read from the helper (n > 0) reach the remote side before the next read or the exit, unless the session is over", "helper output can be skipped while the session is running", c.pathStr(path)...)
+	}
+	// the loop is left only on an error / EOF of the helper, a failed write, or the session being over
+	leave := func(from, to *ssa.BasicBlock) bool {
+		fs := edgeFactsTo(from, to)
+		if factCmp(fs, token.NEQ, isValue(rerr), isNilConst) {
+			return true
+		}
+		if factCmp(fs, token.EQL, isValue(rerr), func(v ssa.Value) bool {
+			u, ok := strip(v).(*ssa.UnOp)
+			if !ok {
+				return false
+			}
+			g, isG := u.X.(*ssa.Global)
+			return isG && g.Name() == "EOF"
+		}) {
+			return true
+		}
+		for _, fc := range fs {
+			if call, _ := callOf(fc.V); call != nil && (isAtomicOnField(call, "errorOccurred", "Load") || isAtomicOnField(call, "clientFinished", "Load")) && fc.Pol {
+				return true
+			}
+			// a failed write to the remote side
+			op, x, y, ok := cmpFact(fc)
+			if call, _ := callOf(x); ok && op == token.NEQ && isNilConst(y) && call != nil && calleeID(&call.Call) == "trzsz.writeAll" {
+				return true
+			}
+		}
+		return false
+	}
+	hit, path := reachFromE(read.Block(), instrIndex(read)+1, func(in ssa.Instruction) bool {
+		ci, ok := in.(ssa.CallInstruction)
+		return isReturn(in) || (ok && calleeID(ci.Common()) == zT+"ensureClientExit")
+	}, nil, leave)
+	c.check(hit == nil, "handleZmodemStream/leaves-for-a-reason", c.ipos(read), "the bridge loop is left only on EOF / an error of the helper, a failed write, or a finished session", "the bridge loop can be left although the helper is still producing output: the transfer is cut", c.pathStr(path)...)
+	// (c) the helper is published before the loop
+	pub := false
+	for _, ci := range callsIn(hs, anyID) {
+		if isAtomicOnField(ci, "cmd", "Store") && isVar("cmd")(ci.Common().Args[1]) && domI(ci.(ssa.Instruction), read) {
+			pub = true
+		}
+	}
+	c.check(pub, "handleZmodemStream/helper-published", c.ipos(read), "the running helper is published (so remote output is forwarded to it) before the bridge loop starts", "the helper is never published: remote output keeps being held back as 'waiting for the helper'")
+	// (n) the pipes are installed from the command before it starts
+	lc := c.fn("zmodemTransfer.launchZmodemCmd")
+	starts := callsIn(lc, idIs("(*os/exec.Cmd).Start"))
+	if len(starts) != 1 {
+		c.lost("cmd.Start in launchZmodemCmd")
+	}
+	for fld, src := range map[string]string{"stdin": "(*os/exec.Cmd).StdinPipe", "stdout": "(*os/exec.Cmd).StdoutPipe"} {
+		good := false
+		eachInstr(lc, func(in ssa.Instruction) {
+			st, ok := in.(*ssa.Store)
+			if !ok {
+				return
+			}
+			if nm, _ := fieldAddrName(st.Addr); nm == "zmodemTransfer."+fld {
+				if call, idx := callOf(st.Val); call != nil && idx == 0 && calleeID(&call.Call) == src && domI(st, starts[0].(ssa.Instruction)) {
+					good = true
+				}
+			}
+		})
+		c.check(good, "launchZmodemCmd/"+fld+"-installed", c.ipos(starts[0]), "the helper's "+fld+" pipe is installed before the helper starts", "the helper's "+fld+" pipe is not installed: the bridge uses a nil "+fld)
+	}
+	// (p) the session's writers are installed before anything else
+	ev := c.fn("zmodemTransfer.handleZmodemEvent")
+	for _, fld := range []string{"serverIn", "clientOut"} {
+		good := false
+		for _, in := range ev.Blocks[0].Instrs {
+			if st, ok := in.(*ssa.Store); ok {
+				if nm, _ := fieldAddrName(st.Addr); nm == "zmodemTransfer."+fld && isVar(fld)(st.Val) {
+					good = true
+				}
+			}
+		}
+		c.check(good, "handleZmodemEvent/"+fld+"-installed", c.pos(ev.Pos()), "the session's "+fld+" writer is installed at the start of the handler", "the session's "+fld+" writer is not installed: the cancel sequence / messages go to a nil writer")
+	}
+	// (i) the handler ends only through the error path, a bridge, or because the session was already stopped
+	isOutcome := func(in ssa.Instruction) bool {
+		ci, ok := in.(ssa.CallInstruction)
+		if !ok {
+			return false
+		}
+		switch calleeID(ci.Common()) {
+		case zT + "handleZmodemError", zT + "uploadFiles", zT + "downloadFiles":
+			return true
+		}
+		return false
+	}
+	stoppedEdge := func(from, to *ssa.BasicBlock) bool {
+		for _, fc := range edgeFactsTo(from, to) {
+			if call, _ := callOf(fc.V); call != nil && isAtomicOnField(call, "stopped", "Load") && fc.Pol {
+				return true
+			}
+		}
+		return false
+	}
+	hit, path = reachFromE(ev.Blocks[0], 0, isReturn, isOutcome, stoppedEdge)
+	c.check(hit == nil, "handleZmodemEvent/always-an-outcome", c.pos(ev.Pos()), "a started session always gets a helper or goes through the error path (unless the remote side already ended it)", "a started session can be left without helper and without error: remote output stays held back forever", c.pathStr(path)...)
+	// (j) the header type selects the helper
+	for _, w := range []struct {
+		callee string
+		upload bool
+		helper string
+	}{{zT + "uploadFiles", true, "sz"}, {zT + "downloadFiles", false, "rz"}} {
+		for _, ci := range callsIn(ev, idIs(w.callee)) {
+			v, known := boolFieldFactAt(ci.Block(), "upload")
+			c.check(known && v == w.upload, "handleZmodemEvent/"+shortID(w.callee)+"@upload="+fmt.Sprint(w.upload), c.ipos(ci), "the helper direction matches the header type", "the helper is chosen on the wrong edge of the header type")
+		}
+		hf := c.fn("zmodemTransfer." + shortID(w.callee))
+		okName := false
+		for _, ci := range callsIn(hf, idIs(zT+"launchZmodemCmd")) {
+			if s, ok := constString(ci.Common().Args[2]); ok && s == w.helper {
+				okName = true
+			}
+		}
+		c.check(okName, shortID(w.callee)+"/helper="+w.helper, c.pos(hf.Pos()), "this direction launches '"+w.helper+"'", "this direction does not launch '"+w.helper+"'")
+	}
+	dz := c.fn("detectZmodem")
+	eachInstr(dz, func(in ssa.Instruction) {
+		st, ok := in.(*ssa.Store)
+		if !ok {
+			return
+		}
+		if nm, _ := fieldAddrName(st.Addr); nm == "zmodemTransfer.upload" {
+			b, isC := constBool(st.Val)
+			one := factCmp(factsAt(st.Block()), token.EQL, anyValue, isConstIntV('1'))
+			c.check(isC && b == one, "detectZmodem/upload-iff-ZRINIT", c.ipos(st), "a ZRINIT header (type 1: the remote side receives) means upload, ZRQINIT (type 0) download", "the header type is mapped to the wrong direction")
+		}
+	})
+	// (d) the user's stop reaches the error path
+	sf := c.fn("zmodemTransfer.stopTransferringFiles")
+	c.check(len(callsIn(sf, idIs(zT+"handleZmodemError"))) == 1, "stopTransferringFiles=>error-path", c.pos(sf.Pos()), "the user's stop goes through the error path (cancel sequences, arming the end)", "the user's stop does not reach the error path")
+	si := c.fn("TrzszFilter.sendInput")
+	nCC := 0
+	for _, ci := range callsIn(si, idIs(zT+"stopTransferringFiles")) {
+		nCC++
+		fs := factsAt(ci.Block())
+		one := factCmp(fs, token.EQL, func(v ssa.Value) bool { lc, _ := callOf(v); return lc != nil && calleeID(&lc.Call) == "builtin len" }, isConstIntV(1))
+		three := factCmp(fs, token.EQL, anyValue, isConstIntV(3))
+		c.check(one && three, "sendInput/ctrl-c=>zmodem-stop", c.ipos(ci), "a lone Ctrl-C during a zmodem session stops it", "the zmodem stop is not on the lone-Ctrl-C edge")
+	}
+	if nCC == 0 {
+		c.bad("sendInput/ctrl-c=>zmodem-stop", c.pos(si.Pos()), "Ctrl-C no longer stops a zmodem session")
+	}
+	// (f) the error path: helper running -> cancel it and make it exit; no helper -> arm the end directly
+	he := c.fn("zmodemTransfer.handleZmodemError")
+	for _, ci := range callsIn(he, idIs(zT+"ensureClientExit", zT+"resetCleanupTimer")) {
+		nonNil, isNil := false, false
+		for _, fc := range factsAt(ci.Block()) {
+			op, x, y, ok := cmpFact(fc)
+			if call, _ := callOf(x); ok && isNilConst(y) && call != nil && isAtomicOnField(call, "cmd", "Load") {
+				nonNil, isNil = op == token.NEQ, op == token.EQL
+			}
+		}
+		if calleeID(ci.Common()) == zT+"ensureClientExit" {
+			c.check(nonNil, "handleZmodemError/kill-iff-helper", c.ipos(ci), "the helper is made to exit on the edge where there is one", "the helper-exit step runs on the edge where no helper exists (nil process)")
+		} else {
+			c.check(isNil, "handleZmodemError/arm-directly-iff-no-helper", c.ipos(ci), "with no helper to wait for, the end of the session is armed directly", "the direct arming runs on the wrong edge of the helper test")
+		}
 	}
 }
